@@ -175,7 +175,9 @@ def mk_order(order, shape):
 
 
 def get_offset(idx, strides):
-    return sum(ii * ss for ii, ss in zip(idx, strides))
+    # int(): an index may be a small NumPy integer (np.uint8(40)); the product
+    # with the stride must not be computed in that type
+    return sum(int(ii) * ss for ii, ss in zip(idx, strides))
 
 
 def bound_check(index, shape):
